@@ -24,7 +24,7 @@ func init() {
 			"generations, solved or not, champions with distinct fitness) - every experiment / trial aggregate recomputed directly from " +
 			"the recorded generations. evaluations = statistic calls. A series is non-trivial if it has >= 3 distinct values and is not " +
 			"sorted; an experiment if it has >= 2 trials of which one is solved; distinct by data fingerprint.",
-		Assumptions: []string{"finite values; unbiased variance asserted for n >= 2 only", "tolerances relative to the data: mean / sum 1e-12 (+1e-15 n max|x|), variance 1e-9 (+1e-24 max|x|^2, the rounding of the mean squared), std 1e-9 (+1e-12 max|x|)"},
+		Assumptions: []string{"finite values; unbiased variance asserted for n >= 2 only", "tolerances relative to the data: mean / sum 1e-12 (+1e-15 n max|x|), variance 1e-9 (+1e-24 max|x|^2, the rounding of the mean squared), std 1e-9 (+1e-12 max|x|); all of them plus the bound 4 n u sum|x| of plain summation, which matters for the series of 4096-100001 values only"},
 		Cases: func(tier string) int {
 			if tier == "quick" {
 				return 3200
